@@ -4,7 +4,7 @@ for every well-formed row, `decode` yields a value, `parse` or `conv` — never
 `.other _` — for every payload.  The per-row well-formedness is a decidable
 predicate that is checked over the regenerated table by kernel evaluation.
 -/
-import XknxVerif.Model.DPT.Codec
+import XknxVerif.Model.DPT.Cores
 
 namespace XknxVerif.DPT
 open XknxVerif.SF
@@ -31,9 +31,6 @@ theorem declaredB_iff {α} (m : M α) : declaredB m = true ↔ Declared m := by
 def Payload.WF : Payload → Prop
   | .binary v => v < 64
   | .array bs => ∀ x ∈ bs, x < 256
-
-/-- number of raw items `validate_payload` hands to the decoder -/
-def rawLen (r : Row) : Nat := match r.kind with | .array => r.length | .binary => 1
 
 def hasValues (t : EnumTable) (n : Nat) : Bool := (List.range n).all fun k => (t.byValue k).isSome
 
